@@ -101,9 +101,9 @@ PROPS = {
     "C29": {
         "vx": ["service_time"],
         "kx": [],
-        "technique": "Verus postcondition on the extracted Service::timestamp (returned > every earlier one, for any clock value) + inductive history lemma over that contract",
+        "technique": "Verus postcondition on the extracted Service::timestamp (returned > every earlier one, for any clock value) + inductive history lemma over that contract + sink preconditions at the signing call sites (the message that gets signed carries the timestamp issued last)",
         "explanation": "Service::timestamp and the real Timestamp Add/Sub/From/Deref impls are verified: the returned timestamp equals the new last_timestamp, is strictly greater than the previous last_timestamp and >= the clock, for any clock value (no monotonicity assumed). lemma_strictly_increasing lifts the per-call contract to any history of calls interleaved with arbitrary clock writes.",
-        "not_decided": "Precondition last_timestamp < u64::MAX (saturating add stalls at 2^64-1 ms). Call sites: add_inventory / remove_inventory / refresh_and_announce_inventory are under contract (the inventory message that is signed carries the timestamp issued last); refs_announcement_for, the node announcement and Service::initialize are not. localtime::LocalTime::as_millis assumed to return the stored millisecond count.",
+        "not_decided": "Precondition last_timestamp < u64::MAX (saturating add stalls at 2^64-1 ms). Call sites: add_inventory / remove_inventory / refresh_and_announce_inventory (the inventory message that gets signed carries the timestamp issued last) and refs_announcement_for (the refs announcement handed to `signed` carries the timestamp issued last) are under contract; the initial node announcement (built in runtime.rs from the wall clock before the service exists) and the inventory message of Service::initialize are not. localtime::LocalTime::as_millis assumed to return the stored millisecond count.",
     },
     "C14": {
         "vx": ["wire_frame"],
